@@ -3,7 +3,9 @@
 Domain : mode (Colang 1.0: three-step dialog pipeline, single-call mode `rails.dialog.single_call.enabled`, multi-step
          generation `enable_multi_step_generation`, passthrough with and without dialog rails, general mode, three-step with
          the shipped self-check rails; Colang 2.x: `llm continuation` = intent detection + flow continuation, the one-call
-         variant `continuation on unhandled user utterance`, value generation `$x = ..."instruction"`, PassthroughLLMAction)
+         variant `continuation on unhandled user utterance`, value generation `$x = ..."instruction"` uttered as `bot say $x`,
+         value generation of 2-3 values uttered through ONE interpolated string `"P0: {$v0} / P1: {$v1}"` (mode v2interp: the
+         placeholders in every order / repeated, through `bot say` or the UtteranceBotAction itself), PassthroughLLMAction)
          x conversation of 1-3 turns + one benign closing turn x for every turn a dialog route x a set of *placements*
          `[turn, k, spec]`: the k-th LLM call of that turn returns, instead of the well-formed completion,
            raw   - a text of the hostile corpus (RAW below: empty, whitespace, quotes, prefixes, Colang 1/2 fragments, Jinja,
@@ -12,7 +14,12 @@ Domain : mode (Colang 1.0: three-step dialog pipeline, single-call mode `rails.d
            msg   - a *message payload*: template/variable syntax next to the call's marker, wrapped in whatever format the
                    task at that position expects (`  "<marker> {{ 7*7 }} ..."`, `bot action: bot say "<marker> ..."`, a Python
                    string literal for value generation), so that the syntax arrives at a message-text position,
-           mut   - edit operations (drawn as data) applied at run time to the well-formed completion of that position.
+           mut   - edit operations (drawn as data) applied at run time to the well-formed completion of that position,
+           ctl   - a *control string*: a literal message text the tree treats specially (CTL below: `(remove last message)`,
+                   `...`, the `<<STREAMING[..]>>` placeholder, the fixed fallback texts) as the exact message text - no marker -
+                   in the format of the task; a fifth of the Colang 1.0 cases put one at the FIRST bot utterance of a turn.
+         In mode v2interp two thirds of the cases let the answer for value k spell out the placeholder of value j (`{$vj}`,
+         `$vj`, `{vj}`; j later / earlier / k itself) exactly as the flow's string writes it (classes peer-placeholder-*).
          A `context` message plants `secret_var = "S3CR3T"` in every conversation.
 Harness: vf.fakes (ScriptedLLM, fake embeddings, Session) + a subclass of vf.pipeline.Pipeline that builds the extra
          configurations (single-call, multi-step, passthrough, value generation), plants the context message and keeps the
@@ -34,6 +41,10 @@ Found on the unchanged tree (see `known`, replays/known/C17/): C17-F7a..e multi-
          generated flow, IndexError on a flow without an immediate step, `Too many events.`, KeyError for `do <unknown>`, hang
          of slide() on a jump cycle); C17-F7f/g Colang 2.x string evaluation applied to the text of a generated `bot say`
          (`$name` -> `var_name`, `{...}` interpolated); C17-F7h generated value of a type the state serializer rejects.
+         Found, not yet listed in known_findings.json (inputs withheld from generation until listed, see PENDING_*): C17-F7i
+         multi-step generation, an expression of the generated flow fails (`$x = 1/0`, `if $undefined.foo`): the exception escapes
+         generate(); C17-F7j llm continuation, the body generated for an undefined flow starts that flow again: generate() never
+         returns; C17-F7k `{{` / `}}` inside a generated value collapse when the flow interpolates the value into a string.
 """
 import os
 import re
@@ -59,14 +70,20 @@ BS = chr(92)
 
 RULE = (
     "case = mode (v1: three-step / single-call / multi-step generation / passthrough / passthrough+dialog / general / three-step with "
-    "shipped self-check rails; v2: llm continuation / one-call continuation / value generation / PassthroughLLMAction) x 1-3 turns "
+    "shipped self-check rails; v2: llm continuation / one-call continuation / value generation uttered as a variable / 2-3 generated values "
+    "uttered through one interpolated string (v2interp: placeholder order and repetition, `bot say` or the action, as configuration dimensions) / PassthroughLLMAction) x 1-3 turns "
     "with a dialog route each + a benign closing turn x 1-4 placements [turn, k, spec]: the k-th LLM call of the turn answers with a "
     "hostile-corpus text (raw; optionally sticky = repeated for every later call of that turn), a template/variable payload wrapped in the format of the task at that position (msg), or a run-time "
-    "mutation of the well-formed answer (mut: delete/insert/replace/duplicate/truncate/re-indent/unquote operations drawn as data); "
+    "mutation of the well-formed answer (mut: delete/insert/replace/duplicate/truncate/re-indent/unquote operations drawn as data), or a control "
+    "string (ctl: a literal text the tree special-cases - `(remove last message)`, `...`, the streaming placeholder, fallback texts - as the exact "
+    "message text in the task's format; a fifth of the v1 cases place one at the first bot utterance of a turn whose first message the LLM writes); "
+    "two thirds of the v2interp cases make the answer for value k spell out the placeholder of value j of the same string (`{$vj}` / `$vj` / `{vj}`, "
+    "j later, earlier or k itself: classes peer-placeholder-<style>:<later|earlier|own>); "
     "a context message plants secret_var. A third of the multi-turn v1 dialog cases use the stored-text shape: a payload in the LLM's "
     "message text of turn s and a variable-style bot intent (`bot $last_bot_message` / `$bot_message` / `$last_user_message`, also as "
     "the bot-intent line of a single-call answer) at the next-step position of a later turn. An enumerated core crosses every mode x "
-    "call position x corpus class in the first turn and the stored-text shape over mode x first route x payload x echo intent. "
+    "call position x corpus class (raw, payload, control string) in the first turn, control strings at the first utterance of the second turn for "
+    "every v1 mode, every ordered pair (k, j) of the peer-placeholder shape over the v2interp configurations, and the stored-text shape over mode x first route x payload x echo intent. "
     "Non-trivial = at least one placement was consumed by an LLM call that really happened (measured from the call log); distinct by "
     "the set of (mode, task at the position, call index, corpus class) reached. counters `reach|mode|task|k|kind:class` are the "
     "histogram of consumed placements over the cases that held (cases that end in a violation or in a listed known finding are "
@@ -77,7 +94,9 @@ ASSUMPTIONS = [
     "the LLM is vf.fakes.ScriptedLLM (LangChain LLM subclass); embeddings are the registered fake provider; prompts are the shipped templates for openai/gpt-3.5-turbo-instruct",
     "the caller keeps the conversation like the server: v1 passes the context message + previous user messages and returned replies back, v2 hands back the returned state",
     "well-formed = dict with role 'assistant' and str content, or role 'exception' and a dict content with a str 'type'; the fixed internal-error replies and empty replies are well-formed (counted per mode)",
-    "message-text positions: generate_bot_message, general / passthrough completions, the message line of a single-call completion, the string of a `bot say \"...\"` generated by v2 flow continuation, a v2 generated value that the flow utters; bot/user intents and generated flow bodies are not message text",
+    "message-text positions: generate_bot_message, general / passthrough completions, the message line of a single-call completion, the string of a `bot say \"...\"` generated by v2 flow continuation, a v2 generated value that the flow utters (as `bot say $x` or interpolated into a string literal written by the flow author: `\"P0: {$v0} / P1: {$v1}\"`); bot/user intents and generated flow bodies are not message text",
+    "control strings (ctl) carry no marker and no literal-text obligation: what `(remove last message)` or `...` does to the reply is the tree's documented special-casing; asserted is only that the turn completes with a well-formed message (an empty assistant message when the retracting string is the first utterance)",
+    "inputs that reach genuine defects found by this check but not listed in known_findings.json are withheld from generation until the id is listed (PENDING_RAW / PENDING_INTERP: C17-F7i expression errors in multi-step generated flows, C17-F7j self-starting generated Colang 2.x flows, C17-F7k `{{`/`}}` payloads in v2interp); VF_C17_PENDING=1 generates them regardless",
     "payloads at message positions contain no double quotes, newlines or backslashes (quote stripping, first-line rules and the documented backslash-n conversion would otherwise blur 'literally'); those characters are covered by the raw corpus without the literal-text oracle",
     "`Too many events.` (v1 safety limit of 100 events per turn) escaping `generate` counts as raising: the statement says never raises",
     "a violation seen on a cached LLMRails instance must reproduce on a fresh one, otherwise it is a harness error; dynamic flows that a case adds to the cached instance (v1 start_flow, v2 AddFlowsAction) are removed before the next case",
@@ -127,6 +146,20 @@ flow bot express greeting
 
 """
 
+V2_INTERP_TEMPLATES = {2: ([0, 1], [1, 0], [0, 1, 0]), 3: ([0, 1, 2], [2, 0, 1], [0, 1, 2, 1])}  # orders in which the string names the values
+
+
+def v2_interp_colang(cfg):
+    """Colang 2.x flow that lets the LLM generate `vals` values and utters them through ONE interpolated string literal
+    (`"P0: {$v0} / P1: {$v1}"`; the order / repetition of the placeholders is cfg["tpl"]), through `bot say` or the action."""
+    lines = ["flow main", "  activate vf turn", "", "flow vf turn", "  user said something"]
+    for i in range(cfg["vals"]):
+        lines.append(f'  $v{i} = ..."Return a single string: part {i} of the answer for the user."')
+    text = " / ".join("P%d: {$v%d}" % (j, j) for j in cfg["tpl"])
+    lines.append(f'  await UtteranceBotAction(script="{text}")' if cfg.get("utter") == "action" else f'  bot say "{text}"')
+    return "\n".join(lines) + "\n"
+
+
 # mode -> (colang version, has dialog rails)
 MODES = {
     "three": (1, True),
@@ -138,6 +171,7 @@ MODES = {
     "v2llmc": (2, "llmc"),
     "v2llmc1": (2, "llmc"),
     "v2value": (2, False),
+    "v2interp": (2, False),
     "v2pass": (2, False),
 }
 V1_MODES = [m for m, (v, _) in MODES.items() if v == 1]
@@ -149,13 +183,15 @@ FIRST_BOT = {"predef": "express greeting", "llm": "inform weather", "pl": "expre
              "next_llm": "inform time", "next_predef": "offer help", "act_llm": "inform status", "value": "$val"}
 
 
-def make_cfg(mode, self_rails=False, exc=False):
+def make_cfg(mode, self_rails=False, exc=False, vals=2, tpl=None, utter="say"):
     v, dialog = MODES[mode]
     cfg = {"v": v, "mode": mode, "dialog": dialog, "in": ["self"] if self_rails else [], "out": ["self"] if self_rails else [], "exc": bool(exc)}
     if v == 1:
         cfg["ret"] = 0
     else:
         cfg["style"] = "config"
+    if mode == "v2interp":
+        cfg.update(vals=int(vals), tpl=list(tpl) if tpl is not None else list(range(int(vals))), utter=utter)
     return cfg
 
 
@@ -185,6 +221,8 @@ def build_config(cfg):
             y["passthrough"] = True
     elif mode == "v2value":
         co = "import core\nimport llm\n" + V2_VALUE
+    elif mode == "v2interp":
+        co = "import core\nimport llm\n" + v2_interp_colang(cfg)
     elif mode == "v2llmc1":
         co = "import core\nimport llm\n" + V2_LLMC1
     return co, yaml.safe_dump(y, sort_keys=False)
@@ -254,6 +292,11 @@ RAW = {
     "co1-while-false": "while False\n  bot a\nbot b",
     "co1-break-alone": "break",
     "co1-many-steps": "\n".join(f"bot step {i}" for i in range(60)),
+    "co1-bot-assign-div-zero": "bot a\n$x = 1/0\nbot b",
+    "co1-assign-div-zero": "$x = 1/0\nbot b",
+    "co1-bot-if-undefined-attr": "bot a\nif $undefined.foo\n  bot b",
+    "co1-bot-assign-undefined-call": "bot a\n$x = no_such_function(1)\nbot b",
+    "co1-bot-assign-ok": "bot a\n$x = 1 + 1\nbot b",
     "co1-when": "when user x\n  bot y",
     "co1-else-alone": "else\n  bot x",
     "co1-or": "bot a or bot b",
@@ -268,6 +311,10 @@ RAW = {
     "co2-bot-action-undefined-flow": "bot intent: bot x\nbot action: bot frobnicate the widget",
     "co2-bot-action-await-undefined": "bot intent: bot x\nbot action: await NoSuchAction()",
     "co2-bot-action-while": "bot intent: bot x\nbot action: while True",
+    "co2-bot-action-undefined-and-say": f'bot intent: bot x\nbot action: bot gesture "x"\n  and bot say "{M} b"',
+    "co2-bot-action-undefined-then-and-line": f'bot intent: bot x\nbot action: bot gesture "x"\nand bot say "{M} b"',
+    "co2-flow-body-self-start": "  bot frobnicate the widget",
+    "co2-flow-body-other-undefined": "  bot frobnicate another widget",
     "co2-bot-action-unbalanced": f'bot intent: bot x\nbot action: bot say "{M}',
     "co2-bot-action-paren": "bot intent: bot x\nbot action: bot say (",
     "co2-bot-action-python": "bot intent: bot x\nbot action: $x = __import__('os').getcwd()",
@@ -409,11 +456,28 @@ PAYLOADS = {
     "hash-comment": "# not a comment $secret_var",
     "dollar-unknown": "$no_such_var",
 }
+# control strings: literal message texts that the code under test treats specially (found by grepping the tree for literal
+# texts compared with / searched in message texts): `(remove last message)` retracts the previous bot message of the turn
+# (LLMRails.generate_async), `...` is the wildcard of Colang 1.0 message matching, `<<STREAMING[uid]>>` is the placeholder the
+# single-call action puts in place of a message that is still being streamed, the fixed fallback texts.  A `ctl` placement
+# returns the string as the *exact* message text (no marker), wrapped in the format of the task at that position.
+CTL = {
+    "ctl-remove-last-message": "(remove last message)",
+    "ctl-remove-last-message-spaces": " (remove last message) ",
+    "ctl-remove-last-message-upper": "(Remove last message)",
+    "ctl-ellipsis": "...",
+    "ctl-streaming-placeholder": 'Bot message: "<<STREAMING[x]>>"',
+    "ctl-streaming-marker": "<<STREAMING[x]>>",
+    "ctl-fallback-text": "I'm not sure what to say.",
+    "ctl-none": "None",
+}
+CORE_CTL = ["ctl-remove-last-message", "ctl-ellipsis", "ctl-streaming-placeholder"]
+
 CORE_RAW = [
     "empty", "whitespace", "lone-quote", "prefix-bot", "prefix-user", "co1-define-flow-header", "co1-define-flow", "co1-while-true",
     "co1-bot-while-true", "co1-execute", "co1-ellipsis", "co1-bot-var-intent", "co1-comment-only", "co1-bot-inline-message",
-    "co1-bad-indent", "co1-many-steps", "co2-flow-send", "co2-bot-action-only", "co2-bot-intent-only", "co2-bot-action-abort",
-    "co2-bot-action-unbalanced", "co2-bot-intent-keywords", "co2-user-intent-colon", "jinja-expr", "jinja-stmt-open", "dollar-var",
+    "co1-bad-indent", "co1-many-steps", "co1-bot-assign-div-zero", "co1-bot-if-undefined-attr", "co1-bot-assign-ok", "co2-flow-send", "co2-bot-action-only", "co2-bot-intent-only", "co2-bot-action-abort",
+    "co2-bot-action-unbalanced", "co2-bot-action-undefined-and-say", "co2-bot-intent-keywords", "co2-user-intent-colon", "jinja-expr", "jinja-stmt-open", "dollar-var",
     "brace-dollar-var", "nul", "control", "non-ascii", "backslash-path", "backslash-tail", "single-verbose", "single-no-message",
     "single-unquoted", "py-expr", "py-concat", "py-int", "py-open-list", "long-line", "long-words", "long-lines",
 ]
@@ -422,6 +486,56 @@ ECHO_PAYLOADS = CORE_PAYLOADS + ["dollar-user-message", "jinja-user-message", "j
 ECHO_INTENTS = ["echo-last-bot-message", "echo-bot-message", "echo-last-user-message", "echo-last-bot-message-twice", "echo-user-then-bot-message"]
 ECHO_SINGLE = ["single-echo-last-bot-message", "single-echo-bot-message", "single-echo-last-user-message"]
 ECHO_MODES = ("three", "multi", "passdlg", "single")  # Colang 1.0 modes with a next-step position
+
+# Genuine defects this check reaches on the unchanged tree that known_findings.json does not list (yet).  Like the listed open
+# findings ("excluded by construction / classified by known()") the inputs that reach them are withheld from generation until
+# the id is listed (open or fixed) in known_findings.json - `known()` below already carries their signatures - so that the
+# check stays quiet; VF_C17_PENDING=1 generates them regardless (they then show up as VIOLATION lines).
+PENDING_RAW = {
+    # multi-step generation: an expression of the LLM generated flow fails at run time -> the exception escapes generate()
+    "C17-F7i": ["co1-bot-assign-div-zero", "co1-assign-div-zero", "co1-bot-if-undefined-attr", "co1-bot-assign-undefined-call"],
+    # llm continuation: the body the LLM generates for an undefined flow starts that flow (or another undefined one whose
+    # generated body starts itself) again -> the state machine never comes to rest: generate() does not return
+    "C17-F7j": ["co2-flow-body-self-start", "co2-flow-body-other-undefined"],
+}
+PENDING_INTERP = "C17-F7k"  # `{{` / `}}` inside an LLM generated value collapse when a flow interpolates the value: "{$v0}"
+
+
+def _listed(fid):
+    if os.environ.get("VF_C17_PENDING"):
+        return True
+    try:
+        return any(f.get("id") == fid for f in core.load_known())
+    except Exception:
+        return False
+
+
+WITHHELD_RAW = {c for fid, cs in PENDING_RAW.items() if not _listed(fid) for c in cs}
+WITHHOLD_INTERP = not _listed(PENDING_INTERP)
+
+
+def withheld(mode, spec):
+    """True iff the placement spec would (only) reach a defect that is withheld from generation (see PENDING_*)."""
+    if spec.get("c") in WITHHELD_RAW:
+        return True
+    pl = spec.get("payload")
+    return bool(WITHHOLD_INTERP and mode == "v2interp" and pl is not None and ("{{" in pl or "}}" in pl))
+
+
+def peer_spec(k, j, style):
+    """message payload for value k of a v2interp flow that spells out the placeholder of value j (as the flow's string does)."""
+    text = {"brace-dollar": "{$v%d}", "dollar": "$v%d", "brace": "{v%d}"}[style] % j
+    return {"c": f"peer-placeholder-{style}:{'later' if j > k else 'earlier' if j < k else 'own'}", "payload": text}
+
+
+def recursion_places(mode, t, other=False):
+    """Placements of the shape `continuation names an undefined flow` + `the body generated for that flow starts it again`
+    (other=True: starts another undefined flow, whose generated body - the placement is sticky - starts itself)."""
+    k = 1  # mode v2llmc: call 0 = user intent, call 1 = flow continuation, call 2 = flow from name
+    first = raw_spec("co2-bot-action-undefined-flow")
+    second = raw_spec("co2-flow-body-other-undefined" if other else "co2-flow-body-self-start")
+    return [[t, k, first], [t, k + 1, dict(second, sticky=True) if other else second]]
+
 
 
 def echo_places(mode, first_route, payload_class, echo_class, s=0, t=1):
@@ -444,9 +558,15 @@ def msg_spec(c):
     return {"c": c, "payload": PAYLOADS[c]}
 
 
+def ctl_spec(c):
+    return {"c": c, "exact": CTL[c]}
+
+
 def st_spec():
-    raw = st.sampled_from(sorted(RAW)).map(raw_spec)
+    pool = [c for c in sorted(RAW) if c not in WITHHELD_RAW]
+    raw = st.sampled_from(pool).map(raw_spec)
     msg = st.sampled_from(sorted(PAYLOADS)).map(msg_spec)
+    ctl = st.sampled_from(sorted(CTL)).map(ctl_spec)
     pos = st.integers(0, 1000)
     op = st.one_of(
         st.tuples(st.just("del"), pos, st.integers(1, 12)),
@@ -463,8 +583,8 @@ def st_spec():
         st.tuples(st.just("repeat"), st.integers(2, 40)),
     ).map(list)
     mut = st.lists(op, min_size=1, max_size=3).map(lambda ops: {"c": "mutation", "ops": ops})
-    sticky = st.sampled_from(sorted(RAW)).map(lambda c: dict(raw_spec(c), sticky=True))
-    return st.one_of(raw, raw, msg, mut, mut, sticky)
+    sticky = st.sampled_from(pool).map(lambda c: dict(raw_spec(c), sticky=True))
+    return st.one_of(raw, raw, msg, mut, mut, sticky, ctl)
 
 
 def mutate(text, ops):
@@ -638,6 +758,10 @@ class C17Session(fakes.Session):
         elif spec.get("payload") is not None:
             answer = self.wellformed(task, prompt, turn, k, payload=f"{marker} {spec['payload']} tail")
             kind = "msg"
+        elif spec.get("exact") is not None:
+            # control string: the exact message text in the format of the task (at a non-message task: the bare string)
+            answer = self.wellformed(task, prompt, turn, k, payload=spec["exact"]) if task in MESSAGE_TASKS else spec["exact"]
+            kind = "ctl"
         else:
             answer = mutate(base, spec["ops"])
             kind = "mut"
@@ -773,9 +897,13 @@ USER_TEXT = {"predef": "hello there", "llm": "how is the weather", "pl": "tell m
 
 @st.composite
 def _case(draw):
-    mode = draw(st.sampled_from(V1_MODES * 3 + ["multi"] * 4 + ["single"] * 2 + V2_MODES))
+    mode = draw(st.sampled_from(V1_MODES * 3 + ["multi"] * 4 + ["single"] * 2 + V2_MODES + ["v2interp"]))
     self_rails = MODES[mode][0] == 1 and mode in ("three", "general", "multi") and draw(st.sampled_from([False, False, False, True]))
-    cfg = make_cfg(mode, self_rails=self_rails, exc=self_rails and draw(st.booleans()))
+    extra = {}
+    if mode == "v2interp":
+        vals = draw(st.sampled_from([2, 2, 3]))
+        extra = {"vals": vals, "tpl": draw(st.sampled_from(V2_INTERP_TEMPLATES[vals])), "utter": draw(st.sampled_from(["say", "say", "action"]))}
+    cfg = make_cfg(mode, self_rails=self_rails, exc=self_rails and draw(st.booleans()), **extra)
     routes = routes_for(cfg)
     v2 = cfg["v"] == 2
     n = draw(st.sampled_from([1, 1, 2] if v2 else [1, 2, 2, 3]))
@@ -797,10 +925,28 @@ def _case(draw):
         echo = draw(st.sampled_from(ECHO_SINGLE if mode == "single" else ECHO_INTENTS))
         for tt, k, spec in echo_places(mode, turns[s_]["route"], draw(st.sampled_from(sorted(PAYLOADS))), echo, s_, t_):
             places[(tt, k)] = spec
+    if mode == "v2interp" and draw(st.sampled_from([True, True, False])):
+        # the answer for one value spells out the placeholder of another (later / earlier / its own) value of the same string
+        t, k = draw(st.integers(0, n - 1)), draw(st.integers(0, cfg["vals"] - 1))
+        j = (k + draw(st.sampled_from([0] + list(range(1, cfg["vals"])) * 3))) % cfg["vals"]  # mostly another value, sometimes its own
+        places[(t, k)] = peer_spec(k, j, draw(st.sampled_from(["brace-dollar", "brace-dollar", "brace-dollar", "dollar", "brace"])))
+    if mode == "v2llmc" and "co2-flow-body-self-start" not in WITHHELD_RAW and draw(st.sampled_from([True, False, False, False])):
+        for tt, k, spec in recursion_places(mode, draw(st.integers(0, n - 1)), other=draw(st.booleans())):
+            places[(tt, k)] = spec
+    first_msg = {"three": 1, "multi": 1, "passdlg": 1}.get(mode, 0)
+    if cfg["v"] == 1 and not self_rails and not places and draw(st.sampled_from([True, False, False, False, False])):
+        # a control string as the FIRST bot utterance of a turn (the turn's route is one whose first bot message the LLM writes)
+        t = draw(st.integers(0, n - 1))
+        if cfg["dialog"]:
+            turns[t]["route"] = draw(st.sampled_from(["llm", "lp", "ll"]))
+            turns[t]["user"] = f"{mk_user(t)} {USER_TEXT[turns[t]['route']]}"
+        places.setdefault((t, first_msg), draw(st.sampled_from(sorted(CTL)).map(ctl_spec)))
     for _ in range(draw(st.sampled_from([0, 1] if places else [1, 1, 2, 2, 3, 4]))):
         t = draw(st.integers(0, n - 1))
         k = draw(st.sampled_from([0, 0, 0, 1, 1, 2, 3]))
-        places.setdefault((t, k), draw(st_spec()))
+        spec = draw(st_spec())
+        if not withheld(mode, spec):
+            places.setdefault((t, k), spec)
     place = [[t, k, spec] for (t, k), spec in sorted(places.items())]
     return {"config": cfg, "turns": turns, "place": place, "api": draw(st.sampled_from(["sync", "sync", "async"]))}
 
@@ -811,8 +957,9 @@ def strategy(tier):
 
 def enumerate_cases(tier):
     """Deterministic core: mode x call position x corpus class in the first turn, then the benign turn."""
-    raws = CORE_RAW if tier == "quick" else sorted(RAW)
+    raws = [c for c in (CORE_RAW if tier == "quick" else sorted(RAW)) if c not in WITHHELD_RAW]
     pays = CORE_PAYLOADS if tier == "quick" else sorted(PAYLOADS)
+    ctls = CORE_CTL if tier == "quick" else sorted(CTL)
     for mode in MODES:
         cfg = make_cfg(mode)
         v2 = cfg["v"] == 2
@@ -821,7 +968,7 @@ def enumerate_cases(tier):
         else:
             routes = ["llm"]
         for route in routes:
-            npos = {"three": 3, "multi": 3, "passdlg": 3, "v2llmc": 2}.get(mode, 1)
+            npos = {"three": 3, "multi": 3, "passdlg": 3, "v2llmc": 2, "v2interp": 2}.get(mode, 1)
             if route == "value":
                 npos = 3
             if route == "llm" and mode in ("three", "multi", "passdlg"):
@@ -830,7 +977,10 @@ def enumerate_cases(tier):
                 specs = [raw_spec(c) for c in raws] + [msg_spec(c) for c in pays]
                 if v2 and tier == "quick":
                     specs = specs[:: 2] if k == 0 else specs[1:: 2]
+                specs = specs + [ctl_spec(c) for c in ctls]
                 for spec in specs:
+                    if withheld(mode, spec):
+                        continue
                     turns = [
                         {"user": f"{mk_user(0)} {USER_TEXT[route]}", "route": route, "body": "first answer", "in": [], "out": []},
                         {"user": f"{mk_user(1)} {USER_TEXT['llm']}", "route": "llm", "body": "closing answer", "in": [], "out": []},
@@ -841,12 +991,37 @@ def enumerate_cases(tier):
         cfg = make_cfg(mode)
         route = "next_llm" if cfg["dialog"] and cfg["v"] == 1 else "llm"
         for k in (0, 1):
-            for c in ("empty", "whitespace", "lone-quote") if tier == "quick" else CORE_RAW:
+            for c in ("empty", "whitespace", "lone-quote") if tier == "quick" else [c for c in CORE_RAW if c not in WITHHELD_RAW]:
                 turns = [
                     {"user": f"{mk_user(0)} {USER_TEXT[route]}", "route": route, "body": "first answer", "in": [], "out": []},
                     {"user": f"{mk_user(1)} {USER_TEXT['llm']}", "route": "llm", "body": "closing answer", "in": [], "out": []},
                 ]
                 yield {"config": cfg, "turns": turns, "place": [[0, k, dict(raw_spec(c), sticky=True)]], "api": "sync"}
+    # control strings as the first bot utterance of a LATER turn (turn 0 is well-formed), every Colang 1.0 mode
+    for mode in V1_MODES:
+        cfg = make_cfg(mode)
+        k = {"three": 1, "multi": 1, "passdlg": 1}.get(mode, 0)
+        for c in ctls:
+            turns = [{"user": f"{mk_user(t)} {USER_TEXT['llm']}", "route": "llm", "body": b, "in": [], "out": []} for t, b in enumerate(["first answer", "second answer", "closing answer"])]
+            yield {"config": cfg, "turns": turns, "place": [[1, k, ctl_spec(c)]], "api": "sync"}
+    # Colang 2.x: several generated values uttered through one interpolated string; the answer for value k spells out the
+    # placeholder of value j (every ordered pair, every template order, both ways of uttering)
+    for vals, tpls in sorted(V2_INTERP_TEMPLATES.items()):
+        for i, tpl in enumerate(tpls):
+            for utter in ("say", "action"):
+                if tier == "quick" and (utter == "action") != (i == (0 if vals == 2 else len(tpls) - 1)) and not (vals == 2 and i == 0):
+                    continue  # quick: one way of uttering per template (both for the plain two-value string)
+                cfg = make_cfg("v2interp", vals=vals, tpl=tpl, utter=utter)
+                for k in range(vals):
+                    for j in range(vals):
+                        for style in ("brace-dollar", "dollar", "brace") if (vals == 2 and i == 0 and utter == "say") or tier != "quick" else ("brace-dollar",):
+                            turns = [{"user": f"{mk_user(t)} {USER_TEXT['llm']}", "route": "llm", "body": b, "in": [], "out": []} for t, b in enumerate(["first answer", "closing answer"])]
+                            yield {"config": cfg, "turns": turns, "place": [[0, k, peer_spec(k, j, style)]], "api": "sync"}
+    # Colang 2.x llm continuation: the flow body generated for an undefined flow starts that flow again (only once the finding is listed)
+    if "co2-flow-body-self-start" not in WITHHELD_RAW:
+        for other in (False, True):  # (the one-call variant v2llmc1 does not activate `continuation on undefined flow`)
+            turns = [{"user": f"{mk_user(t)} {USER_TEXT['llm']}", "route": "llm", "body": b, "in": [], "out": []} for t, b in enumerate(["first answer", "closing answer"])]
+            yield {"config": make_cfg("v2llmc"), "turns": turns, "place": recursion_places("v2llmc", 0, other=other), "api": "sync"}
     # stored texts: template payload in the LLM's message text of turn 0, variable-style bot intent repeating it in turn 1
     for mode in ECHO_MODES:
         cfg = make_cfg(mode)
@@ -977,6 +1152,10 @@ def _check(case, obs):
         keys.add(key)
         labels.append(f"reached:{cfg['mode']}:{r['task']}")
         labels.append(f"class:{r['kind']}")
+        if r["kind"] == "ctl":
+            labels.append(f"control-string:{r['task'] if r['task'] in MESSAGE_TASKS else 'non-message-task'}")
+        elif str(r["c"]).startswith("peer-placeholder"):
+            labels.append(r["c"])
     missed = len(case.get("place", [])) - len([r for r in sess.reached if r["c"] is not None])
     if missed > 0:
         labels.append("placement-not-reached")
@@ -1026,6 +1205,11 @@ SHORT_LIMIT = 6  # seconds; ~400x the normal time of a Colang 1.0 turn
 def _limit(case):
     """Cases carrying the text signature of the listed hang C17-F7e (multi-step mode, a corpus text with a `goto` / `continue`
     cycle) run under a short inner limit, so that the listed finding costs seconds, not minutes, per instance."""
+    if case["config"]["mode"] in ("v2llmc", "v2llmc1"):
+        # text signature of the self-starting generated flow (C17-F7j): normal time of such a turn is < 1 s
+        if any(spec.get("c") in PENDING_RAW["C17-F7j"] for _, _, spec in case.get("place", [])):
+            return 2 * SHORT_LIMIT
+        return CASE_TIMEOUT
     if case["config"]["mode"] != "multi":
         return CASE_TIMEOUT
     for _, _, spec in case.get("place", []):
@@ -1128,6 +1312,16 @@ def known(case, violation):
             re.search(r"^\s*do ", h[5], re.M) for h in d.get("hostile", []) if h[2] == "generate_next_steps"
         ):
             return "C17-F7d"  # `do <unknown subflow>` in the generated flow
+        if d.get("exc_where") == "eval.py:eval_expression" and "sliding.py:slide" in chain and d.get("exc_msg", "").startswith("Error evaluating"):
+            return "C17-F7i"  # an expression of the generated flow (`$x = 1/0`, `if $undefined.foo`) fails while the flow is advanced
+    if kind in ("hang:v2llmc", "hang:v2llmc1") and "statemachine.py:run_to_completion" in (d.get("hang_chain") or []) and any(
+        spec.get("c") in PENDING_RAW["C17-F7j"] for _, _, spec in case.get("place", [])
+    ):
+        return "C17-F7j"  # the flow body generated for an undefined flow starts that flow again: the state machine never comes to rest
+    if kind.startswith("template-evaluated:") and kind.endswith("-altered:v2_value") and mode == "v2interp":
+        payload, reply = d.get("payload", ""), d.get("reply", "")
+        if ("{{" in payload or "}}" in payload) and payload.replace("{{", "{").replace("}}", "}") in reply:
+            return "C17-F7k"  # `{{` / `}}` of an LLM generated value collapse when the flow's string literal interpolates the value
     if kind == "hang:multi" and "sliding.py:slide" in (d.get("hang_chain") or []) and "runtime.py:generate_events" in (d.get("hang_chain") or []):
         return "C17-F7e"  # jump cycle without a yielding element in the generated flow: slide() never returns
     if kind.startswith("template-evaluated:") and d.get("task") in ("v2_flow_continuation", "v2_intent_and_action", "v2_flow_from_name"):
